@@ -8,6 +8,14 @@
 (*       several = per-file list)                                              *)
 (*   load / toasty.tile_fits pass the selection through unchanged.             *)
 (*                                                                             *)
+(*   CollectionLoader.load_paths hands the path list on as given (LoadPaths):  *)
+(*       a path named twice is two inputs.                                     *)
+(*                                                                             *)
+(* FileSeq is the set of PHYSICAL files on disk (a sequence, so that a file has*)
+(* a number); a collection is a SEQUENCE of input paths = numbers of physical  *)
+(* files, so the same file may be named at several list positions (e.g. to take*)
+(* two extensions of one multi-extension file).  Everything the property says  *)
+(* is stated over list POSITIONS, not over distinct files.                     *)
 (* A file is a sequence of HDUs, numbered from 0 as in FITS/astropy; an HDU is *)
 (* [kind, keys]: kind "empty" (no data, e.g. the primary of a multi-extension  *)
 (* file), "img" (2-D image), "tab" (binary table); keys = the WCS solutions in *)
@@ -16,11 +24,11 @@
 (* for every file) or "each" (v[i] belongs to the file at list position i).    *)
 (*                                                                             *)
 (* The module also owns the ENCODING used to observe the real code: the HDU j  *)
-(* of the file at list position i gets a shape, a constant pixel value and a   *)
-(* reference pixel that identify (i, j); every WCS key gets its own CRVAL.     *)
+(* of physical file p gets a shape, a constant pixel value and a reference     *)
+(* pixel that identify (p, j); every WCS key gets its own CRVAL.               *)
 EXTENDS Integers, Sequences, FiniteSets, TLC
 
-CONSTANTS LayoutSeq,    \* the file layouts under test (a sequence, so that a layout has a number)
+CONSTANTS FileSeq,      \* the physical files under test (a sequence, so that a file has a number)
           MaxFiles,     \* collections have 1..MaxFiles input paths
           HduForms,     \* forms of hdu_index explored, subset of {"none", "one", "each"}
           KeyForms      \* forms of wcs_key explored
@@ -64,37 +72,40 @@ SelectKey(spec, i) == CASE spec.form = "one" -> spec.v[1]
                         [] spec.form = "none" -> " "
 
 \* one pass of the loop body of _scan_hdus for path_index = i (1-based here), in the code's branch order
-ScanOne(files, hspec, kspec, i) ==
-    LET f == files[i]
+ScanOne(paths, hspec, kspec, i) ==
+    LET f == FileSeq[paths[i]]
         h == IF hspec.form = "one" THEN hspec.v[1]           \* isinstance(self._hdu_index, int)
              ELSE IF hspec.form # "none" THEN hspec.v[i]     \* elif self._hdu_index is not None: the file's entry
              ELSE GuessHdu(f)
         k == IF kspec.form = "one" THEN kspec.v[1]           \* isinstance(self._wcs_key, str)
              ELSE IF kspec.form # "none" THEN kspec.v[i]
              ELSE " "
-    IN [path |-> i, hdu |-> h, key |-> k]
+    IN [path |-> i, file |-> paths[i], hdu |-> h, key |-> k]      \* path = list position, file = what is opened there
+
+\* CollectionLoader.load_paths: `paths = list(str(p) for p in paths)` - the list as given, repeats included
+LoadPaths(paths) == paths
 
 \* command line: `--hdu-index 1,2,0` / `--wcs-key A,B`; the option value is a comma-separated token list.
 \* int(value) succeeds / len(keys) == 1  <=>  exactly one token  => scalar; otherwise a per-file list.
 Tokens(spec) == spec.v                                      \* how a user writes the selection on the command line
 ParseOption(present, toks) == IF ~present THEN None ELSE IF Len(toks) = 1 THEN One(toks[1]) ELSE Each(toks)
 
-\* ------------------------------------------------------------------ encoding of (file position, HDU, key) in the data
-Shape(i, j) == <<2 + i, 5 + j>>            \* (rows, columns)
-Val(i, j) == 10 * i + j                    \* constant pixel value
-Crpix(i, j) == <<50 * i + 10 * j, 7 + j>>  \* images of different files never overlap on the common tangent plane
+\* ------------------------------------------------------------------ encoding of (physical file, HDU, key) in the data
+Shape(p, j) == <<2 + p, 5 + j>>            \* (rows, columns)
+Val(p, j) == 10 * p + j                    \* constant pixel value
+Crpix(p, j) == <<50 * p + 10 * j, 7 + j>>  \* different (file, HDU) never overlap on the common tangent plane
 Crval(k) == <<10 * KeyNo(k), 10 * KeyNo(k) - 5>>
-Content(i, j, h) ==
-    [kind |-> h.kind, shape |-> IF IsImage(h) THEN Shape(i, j) ELSE <<>>, val |-> Val(i, j),
-     wcs |-> {[key |-> k, crval |-> Crval(k), crpix |-> Crpix(i, j)] : k \in h.keys}]
-\* what the harness has to write: file (position i, layout l) as a list of HDU contents
-FileTable == [i \in 1..MaxFiles |-> [l \in DOMAIN LayoutSeq |-> [jj \in DOMAIN LayoutSeq[l] |-> Content(i, jj - 1, LayoutSeq[l][jj])]]]
-\* what must be observed for an item that stands for (file i, HDU j, key k)
-Observed(o) == [path |-> o.path, hdu |-> o.hdu, key |-> o.key, shape |-> Shape(o.path, o.hdu), val |-> Val(o.path, o.hdu),
-                crval |-> Crval(o.key), crpix |-> Crpix(o.path, o.hdu)]
+Content(p, j, h) ==
+    [kind |-> h.kind, shape |-> IF IsImage(h) THEN Shape(p, j) ELSE <<>>, val |-> Val(p, j),
+     wcs |-> {[key |-> k, crval |-> Crval(k), crpix |-> Crpix(p, j)] : k \in h.keys}]
+\* what the harness has to write: physical file p as a list of HDU contents
+FileTable == [p \in DOMAIN FileSeq |-> [jj \in DOMAIN FileSeq[p] |-> Content(p, jj - 1, FileSeq[p][jj])]]
+\* what must be observed for an item that stands for (list position, physical file p, HDU j, key k)
+Observed(o) == [path |-> o.path, file |-> o.file, hdu |-> o.hdu, key |-> o.key, shape |-> Shape(o.file, o.hdu),
+                val |-> Val(o.file, o.hdu), crval |-> Crval(o.key), crpix |-> Crpix(o.file, o.hdu)]
 
 \* ------------------------------------------------------------------ the space of cases
-Files(l) == [i \in DOMAIN l |-> LayoutSeq[l[i]]]
+Files(l) == [i \in DOMAIN l |-> FileSeq[l[i]]]
 MaxHdus == 4
 \* a selection is in scope when it designates, in every file, an existing image HDU that carries the chosen key
 InScope(files, hspec, kspec) ==
@@ -121,34 +132,36 @@ KeySpecs(files, hspec) ==
                  {s \in [1..n -> AllKeys] : \A i \in 1..n : s[i] \in KeysAt(files, hspec, i)}) :
         k.form = "none" => \A i \in 1..n : " " \in KeysAt(files, hspec, i)}
 
-VARIABLES lay, hs, ks,      \* frozen: layout numbers of the input paths, hdu_index, wcs_key
+VARIABLES lay, hs, ks,      \* frozen: the input paths as the user lists them (numbers of physical files, repeats allowed), hdu_index, wcs_key
           dout, iout        \* what descriptions() / images() have yielded so far (their path_index = Len)
 vars == <<lay, hs, ks, dout, iout>>
 N == Len(lay)
+CollPaths == LoadPaths(lay)       \* self._paths of the collection built for the user's list
 
-Init == /\ lay \in UNION {[1..n -> DOMAIN LayoutSeq] : n \in 1..MaxFiles}
-        /\ \A i \in DOMAIN lay : HasImage(LayoutSeq[lay[i]])
+Init == /\ lay \in UNION {[1..n -> DOMAIN FileSeq] : n \in 1..MaxFiles}
+        /\ \A i \in DOMAIN lay : HasImage(FileSeq[lay[i]])
         /\ hs \in HduSpecs(Files(lay))
         /\ ks \in KeySpecs(Files(lay), hs)
         /\ dout = <<>> /\ iout = <<>>
 
 \* the two generators are independent objects over the same _scan_hdus; a consumer may interleave them at will
-NextDescription == /\ Len(dout) < N
-                   /\ dout' = Append(dout, ScanOne(Files(lay), hs, ks, Len(dout) + 1))
+NextDescription == /\ Len(dout) < Len(CollPaths)
+                   /\ dout' = Append(dout, ScanOne(CollPaths, hs, ks, Len(dout) + 1))
                    /\ UNCHANGED <<lay, hs, ks, iout>>
-NextImage == /\ Len(iout) < N
-             /\ iout' = Append(iout, ScanOne(Files(lay), hs, ks, Len(iout) + 1))
+NextImage == /\ Len(iout) < Len(CollPaths)
+             /\ iout' = Append(iout, ScanOne(CollPaths, hs, ks, Len(iout) + 1))
              /\ UNCHANGED <<lay, hs, ks, dout>>
 Next == NextDescription \/ NextImage
 Spec == Init /\ [][Next]_vars
-Done == Len(dout) = N /\ Len(iout) = N
+Done == Len(dout) = Len(CollPaths) /\ Len(iout) = Len(CollPaths)
 
 \* ------------------------------------------------------------------ the property, sentence by sentence
 Yielded == {dout[n] : n \in DOMAIN dout} \cup {iout[n] : n \in DOMAIN iout}
 \* "a single HDU index or WCS key applies to every file"
 ScalarAppliesToAll == /\ hs.form = "one" => \A o \in Yielded : o.hdu = hs.v[1]
                       /\ ks.form = "one" => \A o \in Yielded : o.key = ks.v[1]
-\* "a list supplies the index or key for the file at the same list position"
+\* "a list supplies the index or key for the file at the same list position" - o.path is a list POSITION of the user's
+\* input; a file named at two positions has two entries and contributes twice
 ListIsPositional == /\ hs.form = "each" => \A o \in Yielded : o.hdu = hs.v[o.path]
                     /\ ks.form = "each" => \A o \in Yielded : o.key = ks.v[o.path]
 \* "no selection means the first HDU holding image data" (and the primary WCS)
@@ -160,8 +173,16 @@ NoneIsFirstImage == /\ hs.form = "none" => \A o \in Yielded : LET f == Files(lay
 ExactSelection == \A o \in Yielded : /\ o.hdu = SelectHdu(hs, o.path, Files(lay)[o.path])
                                      /\ o.key = SelectKey(ks, o.path)
 \* "descriptions and full images ... refer to the same HDUs, in input order, with identical shapes and WCS"
-InInputOrder == /\ \A n \in DOMAIN dout : dout[n].path = n
-                /\ \A n \in DOMAIN iout : iout[n].path = n
+InInputOrder == /\ \A n \in DOMAIN dout : dout[n].path = n /\ dout[n].file = lay[n]
+                /\ \A n \in DOMAIN iout : iout[n].path = n /\ iout[n].file = lay[n]
+\* "each input file contributes": one item per position of the user's list, repeated paths included
+EveryInputContributes == Done => /\ Len(dout) = N /\ Len(iout) = N
+                                 /\ \A n \in 1..N : dout[n].file = lay[n] /\ iout[n].file = lay[n]
+\* a file named at several positions is read at each of them with that position's own entry
+RepeatsAreIndependent == Done =>
+    \A n, m \in 1..N : (n # m /\ lay[n] = lay[m]) =>
+        /\ dout[n].hdu = SelectHdu(hs, n, FileSeq[lay[n]]) /\ dout[m].hdu = SelectHdu(hs, m, FileSeq[lay[m]])
+        /\ dout[n].key = SelectKey(ks, n) /\ dout[m].key = SelectKey(ks, m)
 DescriptionsMatchImages == \A n \in DOMAIN dout \cap DOMAIN iout : Observed(dout[n]) = Observed(iout[n])
 \* the command-line spelling of a selection selects the same thing
 Fresh == dout = <<>> /\ iout = <<>>      \* theorems about the frozen part are evaluated once per case
@@ -169,23 +190,23 @@ CaseInScope == Fresh => InScope(Files(lay), hs, ks)
 CliFaithful == Fresh =>
                LET h2 == ParseOption(hs.form # "none", Tokens(hs))
                    k2 == ParseOption(ks.form # "none", Tokens(ks))
-               IN \A i \in 1..N : ScanOne(Files(lay), h2, k2, i) = ScanOne(Files(lay), hs, ks, i)
+               IN \A i \in 1..N : ScanOne(CollPaths, h2, k2, i) = ScanOne(CollPaths, hs, ks, i)
 \* changing the entry of one file changes that file's contribution and nothing else
 ListIsLocal == (Fresh /\ hs.form = "each") =>
     \A i \in 1..N : \A x \in ImageHdus(Files(lay)[i]) :
         LET h2 == Each([hs.v EXCEPT ![i] = x]) IN
-        \A m \in 1..N : ScanOne(Files(lay), h2, ks, m).hdu = IF m = i THEN x ELSE hs.v[m]
+        \A m \in 1..N : ScanOne(CollPaths, h2, ks, m).hdu = IF m = i THEN x ELSE hs.v[m]
 
 KeyListIsLocal == (Fresh /\ ks.form = "each") =>
     \A i \in 1..N : \A x \in KeysAt(Files(lay), hs, i) :
         LET k2 == Each([ks.v EXCEPT ![i] = x]) IN
-        \A m \in 1..N : ScanOne(Files(lay), hs, k2, m).key = IF m = i THEN x ELSE ks.v[m]
+        \A m \in 1..N : ScanOne(CollPaths, hs, k2, m).key = IF m = i THEN x ELSE ks.v[m]
 
 \* ------------------------------------------------------------------ theorems that do not depend on a behaviour
 \* the generated case space is exactly the set of in-scope selections (checked for collections of up to n files)
 AllSpecs(forms, n, vals) == Forms(forms, vals, [1..n -> vals])
 CaseSpaceComplete(n) ==
-    \A l \in UNION {[1..m -> DOMAIN LayoutSeq] : m \in 1..n} :
+    \A l \in UNION {[1..m -> DOMAIN FileSeq] : m \in 1..n} :
         LET files == Files(l)
             m == Len(l) IN
         (\A i \in 1..m : HasImage(files[i])) =>
@@ -195,12 +216,15 @@ CaseSpaceComplete(n) ==
 \* the loop finds the first image HDU whenever there is one; otherwise it ends on the last HDU
 GuessIsFirstImage(n) == \A f \in AllLayouts(n) : /\ HasImage(f) => GuessHdu(f) = FirstImage(f)
                                                  /\ ~HasImage(f) => GuessHdu(f) = Len(f) - 1
-\* the observation encoding tells every (file position, HDU, key) apart, by shape alone, by value alone and by WCS alone
+\* the observation encoding tells every (physical file, HDU) apart, by shape alone, by value alone and by CRPIX alone ...
+Slots == (DOMAIN FileSeq) \X (0..(MaxHdus - 1))
 EncodingInjective ==
-    \A i1, i2 \in 1..MaxFiles : \A j1, j2 \in 0..(MaxHdus - 1) :
-        (<<i1, j1>> # <<i2, j2>>) => /\ Shape(i1, j1) # Shape(i2, j2) /\ Val(i1, j1) # Val(i2, j2)
-                                     /\ Crpix(i1, j1) # Crpix(i2, j2)
-                                     \* pixel x of an image sits at x - CRPIX1 on the common plane: different files never overlap
-                                     /\ (i1 < i2 => Crpix(i2, j2)[1] - Crpix(i1, j1)[1] >= Shape(i2, j2)[2])
+    /\ Cardinality({Shape(c[1], c[2]) : c \in Slots}) = Cardinality(Slots)
+    /\ Cardinality({Val(c[1], c[2]) : c \in Slots}) = Cardinality(Slots)
+    /\ Cardinality({Crpix(c[1], c[2])[1] : c \in Slots}) = Cardinality(Slots)
+\* ... and pixel x of an image sits at x - CRPIX1 on the common tangent plane: two different (file, HDU) never overlap
+EncodingDisjoint ==
+    \A c1, c2 \in Slots :
+        Crpix(c1[1], c1[2])[1] < Crpix(c2[1], c2[2])[1] => Crpix(c2[1], c2[2])[1] - Crpix(c1[1], c1[2])[1] >= Shape(c2[1], c2[2])[2]
 EncodingKeys == \A k1, k2 \in AllKeys : k1 # k2 => Crval(k1)[1] # Crval(k2)[1] /\ Crval(k1)[2] # Crval(k2)[2]
 =============================================================================
